@@ -28,6 +28,12 @@ type refineCfg struct {
 	// Ctx: the Writer's and the Ping's contexts are cancelled by the application at seeded moments -- before, inside or long after
 	// the call (the model's CtxProcs = {A, P}); each cancellation is announced ("CtxCancel") before cancel() is called
 	Ctx bool `json:"ctx"`
+	// Second: a second writer "B" sends one message with Conn.Write (one frame, no writer lock) and contends with A for the message lock
+	Second bool `json:"second"`
+	// CloseRead: nobody calls Read; the application calls CloseRead, whose goroutine is the reader (the model's Extra "CR"); the
+	// peer may send a data message, which makes that goroutine close the connection with 1008
+	CloseRead bool `json:"closeread"`
+	PeerData  bool `json:"peerdata"`
 }
 
 func runRefine(cfg refineCfg) {
@@ -91,6 +97,13 @@ func runRefine(cfg refineCfg) {
 			}
 		}
 	}()
+	if cfg.PeerData {
+		d := time.Duration(rng.Intn(1500)) * time.Microsecond
+		go func() {
+			time.Sleep(d)
+			send(ws.Frame{Fin: true, Op: ws.OpText, Payload: []byte("unexpected")})
+		}()
+	}
 	if cfg.PeerClose {
 		d := time.Duration(rng.Intn(1500)) * time.Microsecond
 		go func() {
@@ -148,8 +161,16 @@ func runRefine(cfg refineCfg) {
 		}
 		w.Close()
 	})
+	if cfg.Second {
+		actor("B", us(800), func() { c.Write(bg, websocket.MessageBinary, []byte("B's message")) })
+	}
 	actor("P", us(800), func() { c.Ping(pctx) })
-	actor("R", us(300), func() { c.Read(bg) })
+	if cfg.CloseRead {
+		websocket.VerifEmit(c, "Scenario", "cr", 0, 0)
+		c.CloseRead(bg)
+	} else {
+		actor("R", us(300), func() { c.Read(bg) })
+	}
 	actor("K", us(1500), func() { c.Close(websocket.StatusNormalClosure, "") })
 	if cfg.CloseNow {
 		actor("N", us(2500), func() { c.CloseNow() })
@@ -175,7 +196,7 @@ func init() {
 		seed := fs.Int64("seed", 1, "seed")
 		out := fs.String("conn-trace", "", "per-connection hook trace for TraceRefine")
 		par := fs.Int("par", 8, "executions in flight")
-		kind := fs.String("kind", "mix", "scenario: base | n (CloseNow actor) | ctx (cancelled contexts) | mix")
+		kind := fs.String("kind", "mix", "scenario: base | n (CloseNow actor) | ctx (cancelled contexts) | cr (CloseRead goroutine instead of Read) | mix")
 		fs.Parse(args)
 		rep := newReport("refine")
 		tr := &ws.Tracer{}
@@ -188,6 +209,10 @@ func init() {
 			if cfg.CloseNow && rng.Intn(2) == 0 {
 				cfg.CloseNow, cfg.Ctx = false, true
 			}
+			cfg.Second = rng.Intn(2) == 0
+			if !cfg.CloseNow && !cfg.Ctx && rng.Intn(3) == 0 {
+				cfg.CloseRead, cfg.PeerData = true, rng.Intn(2) == 0
+			}
 			switch *kind {
 			case "base":
 				cfg.CloseNow, cfg.Ctx = false, false
@@ -195,6 +220,12 @@ func init() {
 				cfg.CloseNow, cfg.Ctx = true, false
 			case "ctx":
 				cfg.CloseNow, cfg.Ctx = false, true
+			case "cr":
+				cfg.CloseNow, cfg.Ctx, cfg.CloseRead = false, false, true
+				cfg.PeerData = rng.Intn(2) == 0
+			}
+			if *kind != "mix" && *kind != "cr" {
+				cfg.CloseRead, cfg.PeerData = false, false
 			}
 			sem <- struct{}{}
 			wg.Add(1)
